@@ -248,6 +248,13 @@ class Engine:
     def coerce(self, sv: SV, t: T) -> SV:
         if sv.t == t:
             return sv
+        if sv.t.k == 'emptycoll':
+            if t.k in ('set', 'list'):
+                return SV(t, self.ctx.empty_set(t.args[0]))
+            if t.k == 'map':
+                return SV(t, {'dom': self.ctx.empty_set(t.args[0]), 'val': self.ctx.fresh_lifted(t.args[0], t.args[1], 'emptymap')})
+        if sv.t.k in ('set', 'list') and t.k in ('set', 'list') and sv.t.args == t.args:
+            return SV(t, sv.z)
         if t.k == 'opt':
             if sv.t.k == 'none':
                 return SV(t, {'none': z3.BoolVal(True), 'v': self.ctx.fresh(t.args[0], 'nonev')})
@@ -385,6 +392,42 @@ class Engine:
             raise Unsupported(f'function result type {t}')
         return SV(res_t, build(res_t, name))
 
+    def new_record(self, st: State, sort: str) -> SV:
+        """`Cls()`: a fresh object that is in no existing collection, with its declared initial field values."""
+        rec = self.R.records[sort]
+        t = U(sort)
+        x = self.ctx.fresh(t, 'new_' + sort)
+        def mentions(v: SV):
+            tt = v.t
+            if tt.k in ('set', 'list') and tt.args[0] == t:
+                st.assume(z3.Not(z3.Select(v.z, x)))
+            elif tt.k == 'map':
+                kt, vt = tt.args
+                if kt == t:
+                    st.assume(z3.Not(z3.Select(v.z['dom'], x)))
+                if vt.k == 'tuple':
+                    for i, a in enumerate(vt.args):
+                        if a == t:
+                            st.assume(self.ctx.forall([kt], lambda k, i=i: z3.Implies(z3.Select(v.z['dom'], k), self.ctx.select(vt, v.z['val'], k)[i] != x)))
+                elif vt == t:
+                    st.assume(self.ctx.forall([kt], lambda k: z3.Implies(z3.Select(v.z['dom'], k), z3.Select(v.z['val'], k) != x)))
+        for v in list(st.heap.values()):
+            if isinstance(v, SV):
+                mentions(v)
+        for f in st.frames:
+            for v in f.values():
+                if isinstance(v, SV):
+                    if v.t == t:
+                        st.assume(v.z != x)
+                    else:
+                        mentions(v)
+        for fld, init in rec.ctor.items():
+            arr = self.heap_record_field(st, sort, fld)
+            vt = parse_type(rec.mutable[fld])
+            iv = self.coerce(self.eval_spec_in(st, init, {}), vt)
+            st.heap[f'{sort}.{fld}'] = SV(arr.t, self.ctx.store(vt, arr.z, x, iv.z))
+        return SV(t, x)
+
     # ---------------------------------------------------------------- spec evaluation helpers
     def eval_spec_in(self, st: State, text: str, binds: dict, heap=None, old=None) -> SV:
         """Evaluate a spec expression with `binds` as the only local names."""
@@ -473,6 +516,9 @@ class Evaluator:
             return SV(T('enumcls', (), nm), nm)
         if nm in self.R.exc_parents or nm in self.R.exc_parents.values():
             return SV(T('exccls', (), nm), nm)
+        if nm in self.R.const_names:
+            t = U(self.R.const_names[nm])
+            return SV(t, z3.Const(f'const_{nm}', self.ctx.sort(t)))
         g = self.R.globals.get(nm) if hasattr(self.R, 'globals') else None
         if g is not None:
             path = f'@{nm}'
@@ -578,6 +624,7 @@ class Evaluator:
         self.may_raise.append((n.z >= 0, 'Unsupported-negative-slice', 'slice bound must be >= 0'))
         self.st.assume(self.ctx.subset(et, r, base.z))
         self.st.assume(cr == z3.If(nn < cb, nn, cb))
+        self.st.assume(z3.Implies(nn >= cb, self.ctx.ext_eq(SET(et), r, base.z)))     # xs[:n] with n >= len(xs) is xs
         return SV(T(base.t.k, (et,)), r)
 
     # -- operators
@@ -918,7 +965,12 @@ class CallEval:
                 return self.deffunc(nm, n)
             if nm in self.R.funcs:
                 return self.ufunc(nm, n)
-            # record constructor / class used as pure constructor
+            if nm in self.eng.exc_kinds() and not self.e.st.has(nm):
+                return self.eng.new_exc(self.e.st, nm)        # exception object construction, e.g. TaskDiedError()
+            # record constructor `Cls()` of a record sort with a declared ctor: a fresh object
+            for sort, rec in self.R.records.items():
+                if rec.ctor and rec.cls.split(':')[-1] == nm and not n.args and not n.keywords:
+                    return self.eng.new_record(self.e.st, sort)
             c = self.eng.resolve_function(nm)
             if c is not None and c.pure:
                 return self.pure_contract(c, None, n)
@@ -1142,8 +1194,23 @@ class CallEval:
     fn_sorted = fn_list
     fn_tuple = fn_list
 
+    def fn_dict(self, n):
+        if n.args or not n.keywords:
+            if not n.args and not n.keywords and self.e.hint is not None and self.e.hint.k == 'map':
+                return self.e.empty_map(*self.e.hint.args)
+            raise Unsupported('dict(...) with positional arguments')
+        parts = [self.e.ev(k.value) for k in n.keywords]
+        t = TUP(*[p.t for p in parts])
+        names = [k.arg for k in n.keywords]
+        known = self.R.named_tuples.get(str(t))
+        if known is not None and known != names:
+            raise Unsupported(f'dict(...) keywords {names} do not match the declared record {known}')
+        return SV(t, tuple(p.z for p in parts))
+
     def _as_set(self, v: SV, kind):
         t = v.t
+        if t.k in ('mapvalues', 'mapitems'):
+            return v          # list(d.values()) / list(d.items()): an immutable snapshot of the view
         if t.k in ('set', 'list'):
             return SV(T(kind, t.args), v.z)
         if t.k == 'map':
